@@ -4,6 +4,7 @@ package main
 // compares every committed state with the one-step model.
 
 import (
+	"bytes"
 	"fmt"
 	"math/big"
 	"math/rand"
@@ -256,6 +257,7 @@ func runHistory(c *Ctx, caseIdx int, rng *rand.Rand, o *HistOpts) *HistRun {
 	hr.Total = new(big.Int).Set(hr.Total0)
 	shadow := &Model{G: g.G, Hist: m.Hist, Sim: sim}
 	tm := int64(1700000000)
+	var admitted []*TxInfo // transactions of the coming block that CheckTx admitted
 	for h := int64(1); h <= int64(o.Blocks); h++ {
 		tm += int64(1 + rng.Intn(5))
 		hr.Times[h] = tm
@@ -273,8 +275,13 @@ func runHistory(c *Ctx, caseIdx int, rng *rand.Rand, o *HistOpts) *HistRun {
 			if rng.Intn(1000) < o.Mempool {
 				pool = append(pool, directedConflicts(g.Keys, g.G.ChainID, pre, h, rng)...)
 			}
-			for _, tx := range pool {
-				if _, err := r.CheckTx(tx); err != nil {
+			admitted = admitted[:0]
+			for pi, tx := range pool {
+				cres, err := r.CheckTx(tx)
+				if err == nil && cres != nil && cres.Code == 0 && pi < len(txs) && bytes.Equal(txs[pi].Raw, tx) {
+					admitted = append(admitted, txs[pi])
+				}
+				if err != nil {
 					if de, ok := err.(*ErrDead); ok {
 						hr.Died = de
 						hr.issue("C09", "replica-died:"+sigLine(de.Stderr), fmt.Sprintf("history %s: the node died in CheckTx before block %d\n%s", o.Name, h, de.Error()))
@@ -406,6 +413,15 @@ func runHistory(c *Ctx, caseIdx int, rng *rand.Rand, o *HistOpts) *HistRun {
 		}
 		obs := fromDump(d)
 		hr.Issues = append(hr.Issues, so.Issues...)
+		// admission oracle (mempool side): what CheckTx let into the mempool before this block must satisfy the
+		// stateless admission rules under the parameters committed before or by this block
+		for _, t := range admitted {
+			c.Count("mempool-admissions-judged", 1)
+			for _, is := range admissionIssues(t, pre.Params, obs.Params) {
+				hr.issue(is.Prop, is.Sig, fmt.Sprintf("block %d (%s): %s", h, t.Label, is.Detail))
+			}
+		}
+		admitted = admitted[:0]
 		if so.FormerContractTransfers > 0 {
 			c.Count("transfers-to-former-contract-addresses", so.FormerContractTransfers)
 		}
